@@ -5,6 +5,19 @@ COMMON_NOTE = ("Trusted base: Lean 4.33 kernel; axioms ⊆ {propext, Classical.c
                "generated tables (harness/gen_tables.py). ")
 
 CLAIMED = {
+    "C16": {
+        "text": "Theorems (Lean, power-loss model: only fsync'ed content and directory entries persisted by a directory fsync survive): "
+                "atomic_write_durable — after temp/write/fsync/rename/dir-fsync the target is durable; durable_stable; lower_atomic; "
+                "commit_durable — for ANY number of files written by a commit, at every prefix of the syscall trace at or after the pointer's "
+                "rename every referenced file is durable with full content and persisted directory entry (stated through an executable judge); "
+                "judge_sound — the judge means exactly that. Tie/oracle: every operation type × several table sizes is run in a child process "
+                "under strace (sees pyarrow's C++ parquet writes); the proved-sound Lean judge is evaluated on EVERY prefix of the REAL trace, "
+                "and each written file's event sequence is compared with the model's lowering. Witness examples show the judge rejecting a "
+                "missing file fsync, a missing directory fsync and a pointer written first.",
+        "design_ref": "§6 C16",
+        "note": "Disk/kernel honour fsync (assumed). Pre-existing files are taken as durable; ancestor directories' durability is an assumption (§7).",
+        "technique": "Lean 4 theorems on a power-loss model + a proved-sound judge run on real strace traces",
+    },
     "C04": {
         "text": "Theorems (Lean; the quantifier is finite by nature, so they are proved over the WHOLE table backend × call style × phase of the "
                 "fault × kind × has-own-files by kernel evaluation): referenced_present — the transaction's files are never deleted once the "
